@@ -5,7 +5,7 @@ from .. import graphs as G
 from .. import oracles as O
 from .. import rng as rngmod
 from . import modq
-from .common import layout_variants_agree
+from .common import layout_variants_agree, vector_forms_agree
 
 PROP = 'C02'
 ANCHORS = modq.ALL
@@ -205,5 +205,13 @@ def run(case, bct, REC):
                     for r in rngs():
                         modq.execute(REC, bct, 'community_louvain', W, {'gamma': g, 'B': B}, r)
                     modq.execute(REC, bct, 'community_louvain', W, {'gamma': g, 'B': B}, rngs(1)[0], start=sts[4])
+    if n <= 14:
+        st3 = np.arange(n) % 3 + 1
+        if kind == 'und':
+            vector_forms_agree(REC, PROP, 'modularity_und', lambda X, c: bct.modularity_und(X, 1.0, c)[1], (W, st3), {}, 1)
+        elif kind == 'dir':
+            vector_forms_agree(REC, PROP, 'modularity_dir', lambda X, c: bct.modularity_dir(X, 1.0, c)[1], (W, st3), {}, 1)
+        else:
+            vector_forms_agree(REC, PROP, 'modularity_und_sign', lambda X, c: bct.modularity_und_sign(X, c)[1], (W, st3), {}, 1)
     # (no layout differential here: a 1-ulp difference in a strided sum may legitimately flip an argmax tie of the optimiser)
     REC.sample(PROP, {'W': W if n <= 8 else case['g'], 'kind': kind}, cap=4)
